@@ -59,15 +59,15 @@ def run : S → List Ev → Option S
 def safe (evs : List Ev) : Bool := (run ⟨0, []⟩ evs).isSome
 
 /-- reading a source bound before a resize, without a guard in between, is refused - whatever the name and wherever the write is -/
-theorem unguarded_read_after_resize_unsafe (n : String) (b : Bool) : safe [.bind n, .resize, .write n b] = false := by
+theorem unguarded_read_after_resize_refused (n : String) (b : Bool) : safe [.bind n, .resize, .write n b] = false := by
   simp [safe, run, step, upd]
 
 /-- a guard that copies only under further conditions does not license the writes of a loop over several sources -/
-theorem weak_guard_in_loop_unsafe (n : String) : safe [.bind n, .guardWeak n, .write n true] = false := by
+theorem weak_guard_in_loop_refused (n : String) : safe [.bind n, .guardWeak n, .write n true] = false := by
   simp [safe, run, step, upd]
 
 /-- … and neither does a guard taken only on the branch that grows the buffer -/
-theorem conditional_guard_in_loop_unsafe (n : String) : safe [.bind n, .condBegin, .guard n, .resize, .condEnd, .write n true] = false := by
+theorem conditional_guard_in_loop_refused (n : String) : safe [.bind n, .condBegin, .guard n, .resize, .condEnd, .write n true] = false := by
   simp [safe, run, step, upd]
 
 /-- a guard on the growing branch does protect the single write that follows the branch -/
@@ -79,7 +79,7 @@ theorem guarded_read_safe (n : String) (b : Bool) : safe [.bind n, .guard n, .re
   simp [safe, run, step, upd]
 
 /-- a guard placed AFTER the resize comes too late -/
-theorem late_guard_unsafe (n : String) (b : Bool) : safe [.bind n, .resize, .guard n, .write n b] = false := by
+theorem late_guard_refused (n : String) (b : Bool) : safe [.bind n, .resize, .guard n, .write n b] = false := by
   simp [safe, run, step, upd]
 
 end Py.SrcReads
